@@ -55,3 +55,27 @@ reg("C12", "exploration",
     "Two layers: in-process, every relocation type wild knows x boundary and random values through write_to_buffer against an independently written psABI range table; end-to-end, one-relocation objects whose value is set by --defsym/addends are linked by wild, GNU ld and ld.lld (x86-64) or wild, lld and the table (AArch64): both references accept => wild must accept and write identical field bytes; both reject => wild must reject; references disagree => inconclusive.",
     "GNU ld 2.40 and lld 14 are the arbiters; types that relaxation or thunks interfere with are excluded end-to-end and covered in-process only.",
     "runtime differential monitor (three linkers) + in-process boundary oracle")
+reg("C07", "exploration",
+    "Generated merge-string sections with known literals (1- and 4-byte characters, alignment 8, duplicates across objects, shared suffixes, empty strings, strings straddling 256-byte blocks, >12 strings per block, sizes up to MiBs) and references by named symbol + addend and by section symbol + mid-string offset; for every reference the output bytes up to the terminator must equal the input bytes, every distinct string must occur in the output section, also with --no-string-merge, under tiny split groups, thread counts and perturbation; the oracle is first run on GNU ld's output; an unterminated final string must give a diagnostic or correct output.",
+    "Static non-PIE freestanding links so data pointers are final in the file; presence = the string's bytes with terminator occur in the output section.",
+    "runtime content monitor over generated merge sections, calibrated on GNU ld")
+reg("C09", "exploration",
+    "Generated pointer-slot layouts with marker symbols (long runs, sparse, packed/odd addresses, >63-word gaps, odd-address sections) linked as PIE or shared with and without -z pack-relative-relocs; from the output's .rela.dyn/.relr.dyn each slot must be covered by exactly one dynamic relocation whose effect at base B is B+S+A, every RELATIVE/RELR entry must land on a slot or a linker-made pointer table, no overlaps or duplicates, DT_RELR* consistent; glibc PIE and static-PIE self-checking programs are run at six load bases (ASLR on and off). Rules that GNU ld's output breaks are dropped for that case.",
+    "Freestanding outputs make the set of address-holding places known; x86-64 only.",
+    "runtime relocation-table monitor with generator ground truth + execution at several load bases")
+reg("C08", "exploration",
+    "Shared objects and -E executables with 0..5000 exported symbols whose names are drawn to collide (same bucket, same GNU hash, same SysV hash, shared prefixes, versioned duplicates) for --hash-style gnu/sysv/both; a Python re-implementation of glibc's GNU-hash (bloom, bucket, chain) and SysV lookups must find every defined dynamic symbol and reject absent names in bounded steps, structural table checks, and the real consumer (dlopen/dlsym of every name, calling it) must agree. Output corruptions injected by the driver are detected on demand.",
+    "The lookup re-implementation follows glibc 2.36's do_lookup_x; glibc itself is the second consumer.",
+    "runtime table monitor (re-implemented loader lookups) + real dlopen/dlsym consumer")
+reg("C32", "exploration",
+    "Generated version scripts (nodes, dependency chains, exact names, globs, local patterns, extern C++, anonymous node, .symver symbols, layout variants) over generated symbol sets; the map name -> (version node, hidden bit) from wild's .gnu.version/.gnu.version_d/_r must equal GNU ld's, the tables must be internally consistent (hashes, indices, counts), and a dlvsym consumer must resolve every (name, node) ld exports.",
+    "GNU ld 2.40 is the arbiter (lld consulted for information); scripts wild rejects with a clean error are inconclusive.",
+    "runtime differential monitor (version tables vs GNU ld) + dlvsym consumer")
+reg("C36", "exploration",
+    "Asm objects with .note.GNU-stack present/absent/executable and hand-encoded .note.gnu.property notes (AND-, OR- and OR_AND-class x86 properties, several per note, 4- and 8-byte alignment), 1-6 inputs in random order, archives, shared inputs, -z execstack/noexecstack and -z x86-64-vN; PT_GNU_STACK flags and the output property words are compared with GNU ld and with the statement's model; a difference counts only when ld agrees with the model.",
+    "GNU ld 2.40 is the arbiter; cases where wild refuses an executable-stack note produce no output and are inconclusive.",
+    "runtime differential monitor (notes vs GNU ld and a model)")
+reg("C37", "exploration",
+    "Generated link lines over 2-6 shared libraries (with/without sonames, repeated, -l vs path, weak-only and GC'd-only references) with random --as-needed/--no-as-needed/--push-state/--pop-state regions for executables and shared outputs; wild's ordered DT_NEEDED list must equal the statement's model, which is calibrated against GNU ld on every case.",
+    "Cases where ld differs from the model are inconclusive; input libraries are built with GNU ld.",
+    "runtime differential monitor (DT_NEEDED vs model calibrated on GNU ld)")
